@@ -14,3 +14,5 @@ import MainlineModel.Model.Server
 import MainlineModel.Model.Api
 import MainlineModel.Model.Bencode
 import MainlineModel.Model.Krpc
+import MainlineModel.Model.Socket
+import MainlineModel.Model.PutQuery
